@@ -56,8 +56,8 @@ func (c *Client) ReadCoils(id byte, coil, count uint16) ([]bool, error) {
 		return ret, err
 	}
 
-	// FIXME, what is max modbus packet size?
-	buf := make([]byte, 200)
+	// max modbus packet size is 256 bytes for RTU and 260 for TCP
+	buf := make([]byte, 260)
 	cnt, err := c.transport.Read(buf)
 	if err != nil {
 		return ret, err
@@ -101,8 +101,8 @@ func (c *Client) WriteSingleCoil(id byte, coil uint16, v bool) error {
 		return err
 	}
 
-	// FIXME, what is max modbus packet size?
-	buf := make([]byte, 200)
+	// max modbus packet size is 256 bytes for RTU and 260 for TCP
+	buf := make([]byte, 260)
 	cnt, err := c.transport.Read(buf)
 	if err != nil {
 		return err
@@ -155,8 +155,8 @@ func (c *Client) ReadDiscreteInputs(id byte, input, count uint16) ([]bool, error
 		return ret, err
 	}
 
-	// FIXME, what is max modbus packet size?
-	buf := make([]byte, 200)
+	// max modbus packet size is 256 bytes for RTU and 260 for TCP
+	buf := make([]byte, 260)
 	cnt, err := c.transport.Read(buf)
 	if err != nil {
 		return ret, err
@@ -205,8 +205,8 @@ func (c *Client) ReadHoldingRegs(id byte, reg, count uint16) ([]uint16, error) {
 		return ret, err
 	}
 
-	// FIXME, what is max modbus packet size?
-	buf := make([]byte, 200)
+	// max modbus packet size is 256 bytes for RTU and 260 for TCP
+	buf := make([]byte, 260)
 	cnt, err := c.transport.Read(buf)
 	if err != nil {
 		return ret, err
@@ -255,8 +255,8 @@ func (c *Client) ReadInputRegs(id byte, reg, count uint16) ([]uint16, error) {
 		return ret, err
 	}
 
-	// FIXME, what is max modbus packet size?
-	buf := make([]byte, 200)
+	// max modbus packet size is 256 bytes for RTU and 260 for TCP
+	buf := make([]byte, 260)
 	cnt, err := c.transport.Read(buf)
 	if err != nil {
 		return ret, err
@@ -304,8 +304,8 @@ func (c *Client) WriteSingleReg(id byte, reg, value uint16) error {
 		return err
 	}
 
-	// FIXME, what is max modbus packet size?
-	buf := make([]byte, 200)
+	// max modbus packet size is 256 bytes for RTU and 260 for TCP
+	buf := make([]byte, 260)
 	cnt, err := c.transport.Read(buf)
 	if err != nil {
 		return err
